@@ -45,6 +45,40 @@ def generate(rng, tier):
                 lm = s.add("manual U CM 0x999 %s S %d" % (regs, n))
                 s.meta[li] = {"twin": lm}
         out.append(("fpchain-%s-%d" % (arch, w), s))
+    # walks that END on an uncacheable (generic) step: the registers have already been advanced
+    # when the null return address is seen; further next() calls must still return Ok(None)
+    for w in range(6 if tier == "quick" else 60):
+        arch = "x86" if w % 2 == 0 else "a64"
+        R = ARCH_REGS[arch]
+        s = Script(arch, "may" if w % 4 < 2 else "must")
+        gran = 8 if arch == "x86" else 16
+        depth = rng.range(1, 4)
+        frame = 2 * gran * rng.range(1, 3)
+        # a row only the generic path can evaluate: return address at CFA-16 (x86) / CFA-24 (a64)
+        slot = -16 if arch == "x86" else -24
+        row = dict(cfa=("r", R["sp"], frame), fp=("s",), ra=("o", slot))
+        fdes = [dict(start=0x1000, len=0x1000, rows=[(0, row)])]
+        s.module_dwarf("M", 0x10000, 0x20000, 0x10000, 0, rng.choice(["hdr", "eh", "debug"]), fdes, rng)
+        base = 0x7000
+        pairs = {}
+        sp = base
+        for d in range(depth + 3):
+            cfa = sp + frame
+            pairs[cfa + slot] = (0x11100 + 0x10 * d) if d < depth else (0 if d == depth else 0x11500 + d)
+            sp = cfa
+        for a in range(base, sp + 64, 8):
+            pairs.setdefault(a, 0x11800 + (a & 0xff))
+        s.mem("S", sorted(pairs.items()))
+        s.add("new U"); s.add("add U M")
+        regs = s.regs_x86(0x11050, base, 0) if arch == "x86" else s.regs_a64(M64, 0x11060, base, 0)
+        for extra in (1, 2, 4):
+            for via in (0, 1):
+                s.add("newcache CI"); s.add("newcache CM")
+                n = depth + 2 + extra
+                li = s.add("iter U CI 0x11050 %s S %d %d" % (regs, n, via), tag="%s:genericend:%d:%d:%d" % (arch, depth, extra, via))
+                lm = s.add("manual U CM 0x11050 %s S %d" % (regs, n))
+                s.meta[li] = {"twin": lm}
+        out.append(("genericend-%s-%d" % (arch, w), s))
     return out
 
 def judge(script, impl):
